@@ -336,11 +336,36 @@ void TreeGraphImpl<GraphImpl>::rootAt(Graph::NodeId newRoot)
   if (!isValid())
     throw Exception("TreeGraphImpl::rootAt: Tree is not Valid.");
 
+  const bool wasRooted = GraphImpl::isDirected();
   GraphImpl::makeDirected();
   // set the new root on the Graph
   GraphImpl::setRoot(newRoot);
-  // change edge direction between the new node and the former one
-  propagateDirection_(newRoot);
+  if (wasRooted)
+  {
+    // change edge direction between the new node and the former one
+    propagateDirection_(newRoot);
+    return;
+  }
+
+  // makeDirected() gave the edges of the un-rooted tree arbitrary
+  // directions: make every edge point away from the new root
+  std::vector<std::pair<Graph::NodeId, Graph::NodeId>> toVisit(1, std::make_pair(newRoot, newRoot));
+  while (!toVisit.empty())
+  {
+    const Graph::NodeId node = toVisit.back().first;
+    const Graph::NodeId comingFrom = toVisit.back().second;
+    toVisit.pop_back();
+    for (auto neighbor : GraphImpl::getIncomingNeighbors(node))
+    {
+      if (neighbor != comingFrom)
+        GraphImpl::switchNodes(neighbor, node);
+    }
+    for (auto neighbor : GraphImpl::getOutgoingNeighbors(node))
+    {
+      if (neighbor != comingFrom)
+        toVisit.push_back(std::make_pair(neighbor, node));
+    }
+  }
 }
 
 template<class GraphImpl>
